@@ -115,4 +115,27 @@ mod verif_kani_proofs {
         }
         kani::cover!(n == 20);
     }
+
+    // serde layer of node ids / info-hashes (info_hash.rs byte_array::deserialize), driven through serde's own BytesDeserializer
+    fn stub_format(_a: std::fmt::Arguments<'_>) -> String { String::new() }
+
+    /// BOUNDED (byte strings of up to 24 bytes): the deserializer of ids accepts exactly 20 bytes and keeps them (C13)
+    #[kani::proof]
+    #[kani::unwind(26)]
+    #[kani::stub(alloc::fmt::format, stub_format)]
+    fn id_deserialize_exactly_20_bytes() {
+        use serde::de::value::{BytesDeserializer, Error as DeError};
+        const N: usize = 24;
+        let buf: [u8; N] = kani::any();
+        let n: usize = kani::any();
+        kani::assume(n <= N);
+        let de: BytesDeserializer<DeError> = BytesDeserializer::new(&buf[..n]);
+        let r = byte_array::deserialize(de);
+        assert!(r.is_ok() == (n == 20));
+        if let Ok(a) = r {
+            let mut i = 0;
+            while i < 20 { assert!(a[i] == buf[i]); i += 1; }
+        }
+        kani::cover!(n == 20);
+    }
 }
